@@ -951,8 +951,8 @@ def _dump_query(assertions, result, kind):
     if st['pid'] != os.getpid():
         st.update(n=0, written=0, pid=os.getpid())
     st['n'] += 1
-    if st['n'] % _DUMP_EVERY != 1 and _DUMP_EVERY > 1:
-        return
+    if kind != 'fp' and st['n'] % _DUMP_EVERY != 1 and _DUMP_EVERY > 1:
+        return          # floating-point queries are few and are all kept
     if st['written'] >= _DUMP_MAX:
         return
     st['written'] += 1
